@@ -97,6 +97,7 @@ func checkC05(w *World, r *Report) {
 	checkRuneIndexBounds(w, r)
 	checkContextMapsAllocated(w, r)
 	checkFieldPathsTolerateNil(w, r)
+	checkSearchResultsTested(w, r)
 	checkOffsetProvenance(w, r, reach)
 
 	// R05.7
